@@ -8,6 +8,7 @@ from .common import TOL
 
 PROPERTY = "C02"
 LEVEL = "exploration"
+SUPPORTS_V4 = True  # scenarios with "v4": true run over IPv4-mapped addresses (see common.set_family)
 RUNS = {"quick": 3000, "thorough": 40000}
 RULE = ("seeded scenarios: one real client context issues 2-12 concurrent tagged requests (CON/NON) to a real aiocoap "
         "server (echo resource with random latency around EMPTY_ACK_DELAY) and 1-2 scripted servers (piggyback / "
@@ -58,7 +59,7 @@ def gen(r, tier):
     return {"nscripted": nscripted, "ops": ops, "net": faults.swarm(r, kinds=("drop", "dup", "delay", "reorder")),
             "senderr": round(r.uniform(0.01, 0.08), 3) if r.chance(0.08) else 0, "stall": r.chance(0.1),
             # one more concurrent request: to a multicast group nobody answers from (outstanding for the whole run)
-            "mcast": r.chance(0.15)}
+            "mcast": r.chance(0.15), "same_host": r.chance(0.3), "v4": r.chance(0.15)}
 
 
 def corpus():
@@ -176,7 +177,13 @@ def execute(sim, scn):
     for tag, op in enumerate(scn["ops"]):
         if op["op"] == "req":
             plans[op["srv"]][tag] = op
-    scripted = [ScriptServer(sim, common.PEER_IPS[i], 5683, plans[i + 1]) for i in range(scn["nscripted"])]
+    if scn.get("same_host"):
+        # the scripted servers are processes on one host (one IP address, different ports): different endpoints
+        scripted = [ScriptServer(sim, common.PEER_IPS[0], 5683 + i, plans[i + 1]) for i in range(scn["nscripted"])]
+        if len(scripted) > 1:
+            sim.probe("servers_share_a_host")
+    else:
+        scripted = [ScriptServer(sim, common.PEER_IPS[i], 5683, plans[i + 1]) for i in range(scn["nscripted"])]
     addr_of = [(common.SERVER_IP, 5683)] + [s.addr for s in scripted]
     sim.net.names["good.example"] = common.PEER_IPS[0]
     sim.net.names["bad.example"] = None
@@ -197,7 +204,7 @@ def execute(sim, scn):
         if host:
             uri = "coap://%s/echo?t=%d&d=%s" % (host, tag, op["d"])
         else:
-            uri = "coap://[%s]/echo?t=%d&d=%s" % (addr_of[op["srv"]][0], tag, op["d"])
+            uri = "coap://[%s]:%d/echo?t=%d&d=%s" % (addr_of[op["srv"]][0], addr_of[op["srv"]][1], tag, op["d"])
         msg = Message(code=GET, uri=uri, transport_tuning=None if op["con"] else Unreliable())
         tracker.start(tag, client, msg, handle_blockwise=False)
 
